@@ -2,20 +2,30 @@
 
 pub struct Group {
     /// Lean module / file name
-    pub out: &'static str,
-    pub doc: &'static str,
+    pub out: String,
+    pub doc: String,
     /// the proof file that ties the group to the hand-written model
-    pub tie: &'static str,
+    pub tie: String,
     /// (file, enum name)
-    pub enums: &'static [(&'static str, &'static str)],
+    pub enums: Vec<(String, String)>,
     /// (file, struct name)
-    pub structs: &'static [(&'static str, &'static str)],
+    pub structs: Vec<(String, String)>,
     /// (file, owner type or "", const name) — list a constant before its users
-    pub consts: &'static [(&'static str, &'static str, &'static str)],
+    pub consts: Vec<(String, String, String)>,
     /// (file, owner type or "", fn name)
-    pub fns: &'static [(&'static str, &'static str, &'static str)],
+    pub fns: Vec<(String, String, String)>,
     /// type aliases `X<T> = Result<T, _>` used by the targets
-    pub result_aliases: &'static [&'static str],
+    pub result_aliases: Vec<String>,
+}
+
+fn p2(v: &[(&str, &str)]) -> Vec<(String, String)> {
+    v.iter().map(|(a, b)| (a.to_string(), b.to_string())).collect()
+}
+fn p3(v: &[(&str, &str, &str)]) -> Vec<(String, String, String)> {
+    v.iter().map(|(a, b, c)| (a.to_string(), b.to_string(), c.to_string())).collect()
+}
+fn p1(v: &[&str]) -> Vec<String> {
+    v.iter().map(|a| a.to_string()).collect()
 }
 
 const ELEM: &str = "genapi/src/elem_type.rs";
@@ -26,13 +36,13 @@ const CMD: &str = "device/src/u3v/protocol/cmd.rs";
 pub fn groups() -> Vec<Group> {
     vec![
         Group {
-            out: "FnBitMask",
-            doc: "C02: `impl BitMask` of genapi/src/masked_int_reg.rs (field extraction / merge arithmetic).",
-            tie: "CamVerif/Proofs/C02GenTie.lean",
-            enums: &[(ELEM, "Endianness"), (ELEM, "Sign"), (ELEM, "BitMask")],
-            structs: &[],
-            consts: &[],
-            fns: &[
+            out: "FnBitMask".into(),
+            doc: "C02: `impl BitMask` of genapi/src/masked_int_reg.rs (field extraction / merge arithmetic).".into(),
+            tie: "CamVerif/Proofs/C02GenTie.lean".into(),
+            enums: p2(&[(ELEM, "Endianness"), (ELEM, "Sign"), (ELEM, "BitMask")]),
+            structs: p2(&[]),
+            consts: p3(&[]),
+            fns: p3(&[
                 (MASKED, "BitMask", "lsb"),
                 (MASKED, "BitMask", "msb"),
                 (MASKED, "BitMask", "min"),
@@ -40,34 +50,87 @@ pub fn groups() -> Vec<Group> {
                 (MASKED, "BitMask", "mask"),
                 (MASKED, "BitMask", "apply_mask"),
                 (MASKED, "BitMask", "masked_value"),
-            ],
-            result_aliases: &["GenApiResult"],
+            ]),
+            result_aliases: p1(&["GenApiResult"]),
         },
         Group {
-            out: "FnAccessRight",
-            doc: "C20: `impl AccessRight` of impl/src/memory.rs (two-bit access-right lattice).",
-            tie: "CamVerif/Proofs/C20GenTie.lean",
-            enums: &[(MEMORY, "AccessRight")],
-            structs: &[],
-            consts: &[],
-            fns: &[
+            out: "FnAccessRight".into(),
+            doc: "C20: `impl AccessRight` of impl/src/memory.rs (two-bit access-right lattice).".into(),
+            tie: "CamVerif/Proofs/C20GenTie.lean".into(),
+            enums: p2(&[(MEMORY, "AccessRight")]),
+            structs: p2(&[]),
+            consts: p3(&[]),
+            fns: p3(&[
                 (MEMORY, "AccessRight", "as_num"),
                 (MEMORY, "AccessRight", "is_readable"),
                 (MEMORY, "AccessRight", "is_writable"),
                 (MEMORY, "AccessRight", "from_num"),
                 (MEMORY, "AccessRight", "meet"),
-            ],
-            result_aliases: &[],
+            ]),
+            result_aliases: p1(&[]),
         },
         Group {
-            out: "FnCmd",
-            doc: "C10: length arithmetic of device/src/u3v/protocol/cmd.rs.",
-            tie: "CamVerif/Proofs/C10GenTie.lean",
-            enums: &[],
-            structs: &[],
-            consts: &[(CMD, "CommandPacket", "ACK_HEADER_LENGTH")],
-            fns: &[(CMD, "ReadMem", "maximum_read_length"), (CMD, "", "into_scd_len")],
-            result_aliases: &["Result"],
+            out: "FnCmd".into(),
+            doc: "C10: length arithmetic of device/src/u3v/protocol/cmd.rs.".into(),
+            tie: "CamVerif/Proofs/C10GenTie.lean".into(),
+            enums: p2(&[]),
+            structs: p2(&[]),
+            consts: p3(&[(CMD, "CommandPacket", "ACK_HEADER_LENGTH")]),
+            fns: p3(&[(CMD, "ReadMem", "maximum_read_length"), (CMD, "", "into_scd_len")]),
+            result_aliases: p1(&["Result"]),
         },
     ]
+}
+
+/// `--file <rel> --name <Out>`: an ad-hoc group made of EVERY top-level enum, struct, integer
+/// constant, free fn and inherent method (of those enums/structs) of one source file.  Used by the
+/// self-test to exercise the whole supported subset on a synthetic file; not used by the checks.
+pub fn adhoc(repo: &std::path::Path, rel: &str, name: &str) -> Result<Group, String> {
+    let src = std::fs::read_to_string(repo.join(rel)).map_err(|e| format!("{}: {}", rel, e))?;
+    let ast = syn::parse_file(&src).map_err(|e| format!("{}:{}: {}", rel, e.span().start().line, e))?;
+    let mut g = Group {
+        out: name.to_string(),
+        doc: format!("ad-hoc translation of every item of {}", rel),
+        tie: "(none)".into(),
+        enums: vec![],
+        structs: vec![],
+        consts: vec![],
+        fns: vec![],
+        result_aliases: vec![],
+    };
+    let mut types = vec![];
+    for it in &ast.items {
+        match it {
+            syn::Item::Enum(e) => {
+                g.enums.push((rel.to_string(), e.ident.to_string()));
+                types.push(e.ident.to_string());
+            }
+            syn::Item::Struct(e) => {
+                g.structs.push((rel.to_string(), e.ident.to_string()));
+                types.push(e.ident.to_string());
+            }
+            syn::Item::Const(c) => g.consts.push((rel.to_string(), String::new(), c.ident.to_string())),
+            syn::Item::Fn(f) => g.fns.push((rel.to_string(), String::new(), f.sig.ident.to_string())),
+            syn::Item::Type(t) => g.result_aliases.push(t.ident.to_string()),
+            _ => {}
+        }
+    }
+    for it in &ast.items {
+        if let syn::Item::Impl(i) = it {
+            if i.trait_.is_some() {
+                continue;
+            }
+            if let syn::Type::Path(tp) = &*i.self_ty {
+                let owner = tp.path.segments.last().map(|s| s.ident.to_string()).unwrap_or_default();
+                for ii in &i.items {
+                    match ii {
+                        syn::ImplItem::Const(c) => g.consts.push((rel.to_string(), owner.clone(), c.ident.to_string())),
+                        syn::ImplItem::Method(m) => g.fns.push((rel.to_string(), owner.clone(), m.sig.ident.to_string())),
+                        _ => {}
+                    }
+                }
+            }
+        }
+    }
+    Ok(g)
 }
